@@ -88,6 +88,7 @@ Init_Hier == << <<"ins", 1, 1, 1>>, <<"ins", 2, 1, 1>>, <<"ins", 3, 1, 1>>, <<"i
                 <<"reg", "persistent", 1, << <<"rem", 1>>, <<"erem", 2, 1>>, <<"desp", 3>> >>, 0>>,
                 <<"reg", "cleanup", 2, << <<"desp", 1>>, <<"desp", 2>>, <<"erem", 3, 1>>, <<"rem", 2>> >>, 0>> >>
 Init_EwBurst == << <<"ins", 1, 1, 1>>, <<"ins", 2, 1, 1>>, <<"ins", 3, 1, 1>>, <<"eadd", 1, 1, 1>>, <<"eadd", 1, 2, 2>>, <<"eadd", 1, 3, 1>> >>
+Init_OnlyErem == << <<"ins", 1, 1, 1>>, <<"reg", "persistent", 1, << <<"erem", 1, 1>> >>, 0>> >>
 Init_Desp == << <<"ins", 1, 1, 1>>,
                 <<"reg", "cleanup", 1, << <<"desp", 1>>, <<"desp", 2>> >>, 0>>,
                 <<"reg", "revokable", 2, << <<"desp", 1>>, <<"rem", 1>> >>, 1>> >>
